@@ -37,6 +37,12 @@ let rec app l m =
   | [] -> m
   | a :: l1 -> a :: (app l1 m)
 
+(** val pred : nat -> nat **)
+
+let pred n0 = match n0 with
+| O -> n0
+| S u -> u
+
 (** val add : nat -> nat -> nat **)
 
 let rec add n0 m =
@@ -510,3 +516,59 @@ let gate_useless a l =
 
 let gate_empty a e =
   eqb e (is_empty a)
+
+(** val dch : rule -> n list **)
+
+let dch r =
+  nodup N.eq_dec r.ch
+
+(** val fire : n -> (n list * n list) -> (rule * nat) -> n list * n list **)
+
+let fire q st rc =
+  if (&&) ((&&) (memN q (fst rc).ch) (Nat.eqb (snd rc) (S O)))
+       (negb (memN (fst rc).par (fst st)))
+  then (((fst rc).par :: (fst st)), (app (snd st) ((fst rc).par :: [])))
+  else st
+
+(** val dec : n -> (rule * nat) -> rule * nat **)
+
+let dec q rc =
+  if memN q (fst rc).ch then ((fst rc), (pred (snd rc))) else rc
+
+type ust = { rcs : (rule * nat) list; marked : n list; todo : n list;
+             popped : n list }
+
+(** val urun : nat -> ust -> n list option **)
+
+let rec urun fuel s =
+  match fuel with
+  | O -> None
+  | S f ->
+    (match s.todo with
+     | [] -> Some s.marked
+     | q :: t ->
+       let st = fold_left (fire q) s.rcs (s.marked, t) in
+       urun f { rcs = (map (dec q) s.rcs); marked = (fst st); todo =
+         (snd st); popped = (app s.popped (q :: [])) })
+
+(** val fire0 : (n list * n list) -> rule -> n list * n list **)
+
+let fire0 st r =
+  match r.ch with
+  | [] ->
+    if memN r.par (fst st)
+    then st
+    else ((r.par :: (fst st)), (app (snd st) (r.par :: [])))
+  | _ :: _ -> st
+
+(** val uinit : ta -> ust **)
+
+let uinit a =
+  let st = fold_left fire0 a.rules ([], []) in
+  { rcs = (map (fun r -> (r, (length (dch r)))) a.rules); marked = (fst st);
+  todo = (snd st); popped = [] }
+
+(** val productive_count : ta -> nat -> n list option **)
+
+let productive_count a fuel =
+  urun fuel (uinit a)
